@@ -276,7 +276,7 @@ pub fn run(tier: Tier, seed: u64) -> i32 {
     let run = Run::new(ID, "model_checking", tier, seed);
     run.assume("precondition of the property: the catcher's hook is installed (after a sentinel hook); fallback mode Abort aborts the process by design and is not driven");
     install_hooks();
-    let max_len = tier.pick(5usize, 6usize);
+    let max_len = tier.pick(5usize, 7usize);
     let na = ALPHABET.len();
     let mut sequences = 0u64;
     for len in 0..=max_len {
@@ -375,7 +375,7 @@ pub fn run(tier: Tier, seed: u64) -> i32 {
     }
 
     // ---- two threads: every pair of short sequences x every interleaving at step granularity ----
-    let (la, lb) = tier.pick((2usize, 2usize), (3usize, 2usize));
+    let (la, lb) = tier.pick((2usize, 2usize), (3usize, 3usize));
     let seqs = |max: usize| -> Vec<Vec<Step>> {
         let mut v = Vec::new();
         for len in 1..=max {
